@@ -287,3 +287,77 @@ def consts(traces):
             "TLook == TKeys \\cup {" + ", ".join(seq(k) for k in sorted(look)) + "}\n"
             "TVals == {" + ", ".join(f"[tag |-> {a}, len |-> {b}]" for a, b in sorted(vals)) + "}\n"
             "====\n")
+
+
+def rerun_trace(mod, trace):
+    """re-execute the calls of a recorded trace on the current code and record them afresh
+    (used by `./check Cnn --replay`)"""
+    from .realize import Realizer, key_of
+
+    rz = Realizer()
+    r = Recorder(mod, random.Random(0), trace["prune"], trace["faults"])
+    r.lostset = set()
+    lost = {}
+    for e in trace["ev"]:
+        a = e["a"]
+        k = key_of(e["k"])
+        v = val(*e["v"])
+        look = [key_of(x[0]) for x in e["st"]["look"]]
+        if a in ("set", "bset"):
+            trie = r.batch if a == "bset" else (r.t2 if e["i"] == 2 else r.t)
+            real = r.call(lambda: do_write(trie, k, v, r.n))
+            r.log(a, trie, real, i=e["i"], k=k, v=v, lookkeys=look if real["kind"] == "ok" else ())
+        elif a in ("get", "bget"):
+            trie = r.batch if a == "bget" else r.t
+
+            def f():
+                return {"kind": "val", "v": trie.get(k) if r.n % 2 else trie[k]}
+            real = r.call(f)
+            r.log(a, trie, real, k=k)
+        elif a == "begin":
+            def bg():
+                r.cm = r.t.squash_changes()
+                r.batch = r.cm.__enter__()
+            r.log("begin", r.t, r.call(bg))
+        elif a == "commit":
+            cm = r.cm
+            real = r.call(lambda: cm.__exit__(None, None, None))
+            r.cm = r.batch = None
+            r.log("commit", r.t, real, lookkeys=look if real["kind"] == "ok" else ())
+        elif a == "abort":
+            cm = r.cm
+
+            def ab():
+                x = UserAbort()
+                try:
+                    if cm.__exit__(UserAbort, x, None):
+                        return {"kind": "exc", "type": "swallowed"}
+                except UserAbort:
+                    pass
+            real = r.call(ab)
+            r.cm = r.batch = None
+            r.log("abort", r.t, real, lookkeys=look)
+        elif a == "lose":
+            h = rz.node(e["n"])["hash"]
+            if h in r.db:
+                r.shadow.update(r.db)
+                lost[h] = r.db[h]
+                dict.__delitem__(r.db, h)
+                r.lostset.add(h)
+            r.n += 1
+            r.log("lose", r.t, {"kind": "ok"}, n=e["n"])
+        elif a == "supply":
+            h = rz.node(e["n"])["hash"]
+            if h in lost:
+                dict.__setitem__(r.db, h, lost[h])
+                r.lostset.discard(h)
+            r.n += 1
+            r.log("supply", r.t, {"kind": "ok"}, n=e["n"])
+        elif a == "adopt":
+            rh = rz.root_hash(e["root"])
+
+            def ad():
+                r.t2 = r.H(r.db, rh)
+            real = r.call(ad)
+            r.log("adopt", r.t2, real, i=2, root=e["root"], lookkeys=look)
+    return {"prune": trace["prune"], "faults": trace["faults"], "ev": r.ev, "problems": [p[0] for p in r.problems]}
